@@ -1,8 +1,9 @@
 import NetVerif.Driver.Util
 import NetVerif.Model.Huffman
+import NetVerif.Model.HuffmanTable
 /-! Line-protocol driver for the Huffman model (C04). Stateless.
-`enc`/`len`/`dec`/`decmax` mirror AppendHuffmanString / HuffmanEncodeLength /
-HuffmanDecode / huffmanDecode(maxLen). `encspec` is the bit-level specification. -/
+`enc`/`len`/`dec`/`decmax` (byte-level models as coded) mirror AppendHuffmanString / HuffmanEncodeLength /
+HuffmanDecode / huffmanDecode(maxLen). `encspec`/`decspec`/`decmaxspec` are the bit-level specifications. -/
 open NetVerif.Driver NetVerif.Model.Huffman
 
 def showDec : Except DecErr (List Nat) → String
@@ -27,9 +28,17 @@ def c04Step (_ : Unit) (line : String) : Unit × String :=
       | none => "bad-op"
     | ["dec", v] =>
       match parseBytes v with
-      | some v => showDec (decode v)
+      | some v => showDec (decodeBytes v)
       | none => "bad-op"
     | ["decmax", n, v] =>
+      match parseNat n, parseBytes v with
+      | some n, some v => showDec (decodeBytesMax n v)
+      | _, _ => "bad-op"
+    | ["decspec", v] =>
+      match parseBytes v with
+      | some v => showDec (decode v)
+      | none => "bad-op"
+    | ["decmaxspec", n, v] =>
       match parseNat n, parseBytes v with
       | some n, some v => showDec (decodeMax n v)
       | _, _ => "bad-op"
